@@ -6,11 +6,11 @@ import (
 	"strings"
 )
 
-// Batcher collects (request line, implementation answer) pairs and compares them with the model
+// C20Batcher collects (request line, implementation answer) pairs and compares them with the model
 // driver in chunks, so that long (thorough) runs do not hold every line in memory.
 // Without a driver it keeps accepting pairs (the monitor part of a harness goes on) and Done
 // reports ErrNoModel.
-type Batcher struct {
+type C20Batcher struct {
 	c            *Ctx
 	lines, impls []string
 	size         int
@@ -20,10 +20,10 @@ type Batcher struct {
 	MaxLines, MaxBytes int
 }
 
-func (c *Ctx) NewBatcher() *Batcher { return &Batcher{c: c, MaxLines: 20000, MaxBytes: 32 << 20} }
+func (c *Ctx) NewC20Batcher() *C20Batcher { return &C20Batcher{c: c, MaxLines: 20000, MaxBytes: 32 << 20} }
 
 // Add queues one comparison: the driver's answer to `line` must equal `impl`.
-func (b *Batcher) Add(line, impl string) {
+func (b *C20Batcher) Add(line, impl string) {
 	if b.noModel || b.err != nil {
 		return
 	}
@@ -36,7 +36,7 @@ func (b *Batcher) Add(line, impl string) {
 }
 
 // Flush sends the queued lines to the driver and records agreements / disagreements.
-func (b *Batcher) Flush() {
+func (b *C20Batcher) Flush() {
 	if len(b.lines) == 0 || b.noModel || b.err != nil {
 		b.lines, b.impls, b.size = b.lines[:0], b.impls[:0], 0
 		return
@@ -64,7 +64,7 @@ func (b *Batcher) Flush() {
 }
 
 // Done flushes and returns what the harness's run function should return.
-func (b *Batcher) Done() error {
+func (b *C20Batcher) Done() error {
 	b.Flush()
 	if b.err != nil {
 		return b.err
